@@ -34,6 +34,11 @@ func (fs *LocalFS) SetSymlinkPermissions(n NodeSymlink) error {
 	return nil
 }
 
+// setSymlinkTime is not supported on Windows.
+func setSymlinkTime(name string, mtime time.Time) error {
+	return nil
+}
+
 func (fs *LocalFS) CreateDevice(n NodeDevice) error {
 	return errors.New("Device nodes not supported on this platform")
 }
